@@ -105,6 +105,20 @@ def check(ctx):
                        f"{tm.qualname} accepts {p!r} but never reads it (it is overwritten by the default): {mname}({p}=...) renders with "
                        f"the default for every value", clause="all max_rows/max_width/truncate_width settings")
     ctx.count("options of the renderers", n_opt, 6)
+    # util.upad pads to a common DISPLAY width: every width it computes comes from util.ulen, never from len() or the
+    # code-point based str.rjust / ljust / center / format-spec padding
+    up = repo.fn("dataiter.util.upad")
+    bad_pad = [c for _, c in calls_in(up) if (isinstance(c.func, ast.Attribute) and c.func.attr in ("rjust", "ljust", "center", "zfill"))
+               or repo.dotted(up, c.func) == "builtins.len"]
+    bad_pad += [n for n in body_nodes(up.node) if isinstance(n, ast.FormattedValue) and n.format_spec is not None]
+    ulens = [c for _, c in calls_in(up) if repo.dotted(up, c.func) == "dataiter.util.ulen"]
+    ok = not bad_pad and len(ulens) >= 2
+    ctx.ob("SIB-pad", up, f"upad measures with ulen ({len(ulens)} site(s)); code-point based padding: {[norm(b)[:40] for b in bad_pad] or 'none'}",
+           bad_pad[0] if bad_pad else up.node, ok,
+           "the common width and each cell's padding are display widths" if ok else
+           "upad pads by code points (len / str.rjust / ljust / a format spec): cells containing wide (East Asian), zero-width or combining "
+           "characters get the wrong number of spaces, so the lines of a block no longer have the same display width",
+           clause="all lines of a block have the same display width")
     for ov in [m for c in repo.classes.values() for m in c.methods.values()
                if m.name in ENTRY_NAMES and m.cls is not None and repo.subclasses(m.cls) == []
                and any(isinstance(b, type(m.cls)) and m.name in b.methods for b in repo.mro(m.cls)[1:] if not isinstance(b, str))]:
